@@ -9,6 +9,7 @@ SYMS = ['[', ']', '{', '}', '(', ')', '.', ',', ';', ':', '?', '+', '-', '*', '/
         '"s"', "'t'", '`q`', '1', '2.5', '1e3', '/re/', '/a(b)/i', ' ', '\n', '\t', '"', "'", '`', '\\', '\\u', 'é', '䑁', '😀', '1.', '.5', '0x1', '1e', '@', '#']
 
 SEEDS = [
+    '$substring(?, 0, cfg.len)', '($f := $substring(?, 0, lens[1]); $f("abcdef"))', '$lookup(?, cfg.key)', '$append(?, lens[])', '$f(?, a.b.c, d[0], e[])', '$f(a.b, ?)', '$f(?, {"k": a.b})', '$f(?, [a.b])', '$f(?, a.b ~> $g)',
     'function($x)<(>{$x}', '!é', '[1.䑁]', 'function($x)<!>{$x}', '1.', 'HELLO!', 'a ~ b', '!a', 'function($x)<a<n>>{$x}', 'λ($x)<n?:n>{$x}',
     '"\\ud83d\\ude00"', '"\\ud83d"', '"\\ud83d\\u0041"', '"\\u00e9"', '"\\u12"', '"\\x"', '"abc', "'abc", '`abc', '/abc', '/a\\/b/', '//', '/(/', '/[a-/',
     '1e400', '-1e400', '1e-400', '00', '01', '1.5.2', '1..2', '[1..2]', 'a[', 'a[]', 'a[][]', 'a[0][1]', '(a)[0]', 'a{', 'a{"k":1}{"k":2}', 'a{"k":1}[0]',
